@@ -239,6 +239,17 @@ func (e *Enc) run() {
 			}
 		}
 	}
+	for _, b := range fn.Blocks { // signatures of external callees (needed to type their contracts' modifies clauses)
+		for _, in := range b.Instrs {
+			if ci, ok := in.(ssa.CallInstruction); ok {
+				if callee := ci.Common().StaticCallee(); callee != nil {
+					if k := e.w.fnKey(callee); e.w.extFn[k] == nil {
+						e.w.extFn[k] = callee
+					}
+				}
+			}
+		}
+	}
 	e.findLoops()
 	order := e.rpo()
 	for _, b := range order {
